@@ -70,7 +70,7 @@ M = [
   "isSnap := router.Latest-router.Known > 100", "isSnap := router.Latest-router.Known <= 100",
   "snapshot decision flipped (fetcher)"),
  ("m19-no-second-best-route", "dv/table/fib.go",
-  "\t}, {\n\t\tFaceId: face2,\n\t\tCost:   ribEntry.lowest2,\n\t}}", "\t}}",
+  "\t\tCost:   ribEntry.lowest2,", "\t\tCost:   config.CostInfinity,",
   "second-best next hop not installed"),
  ("m20-face-change-not-dirty", "dv/table/neighbor_table.go",
   "ns.routeRegister(faceId)\n\t\treturn nil, true", "ns.routeRegister(faceId)\n\t\treturn nil, false",
